@@ -30,7 +30,7 @@ def to_py(v):
     if t == "tuple":
         return tuple(to_py(e) for e in v.get("l", []))
     if t == "float":
-        return 1.5
+        return float(v["f"]) if v.get("f") else 1.5
     if t == "range":
         return range(*v["r"])
     raise ValueError(t)
@@ -56,7 +56,7 @@ def from_py(x):
         l = [from_py(e) for e in x]
         return {"t": "tuple", "l": l} if l else {"t": "tuple"}
     if isinstance(x, float):
-        return {"t": "float"}
+        return {"t": "float", "f": repr(x)}
     raise ValueError(type(x))
 
 
@@ -84,6 +84,8 @@ def norm(v):
         out["s"] = v["s"]
     if v.get("l"):
         out["l"] = [norm(e) for e in v["l"]]
+    if v["t"] == "float":
+        out["f"] = float(v["f"]) if v.get("f") else 1.5
     return out
 
 
@@ -98,6 +100,82 @@ def strict_elems(xs):
         if len(kinds) > 1:
             raise TypeError("mixed types")
     return xs
+
+
+def kind_of(x):
+    """Ordering classes of Starlark values: int and float compare with each other, nothing else mixes."""
+    if isinstance(x, bool):
+        return "bool"
+    if isinstance(x, (int, float)):
+        return "number"
+    return type(x).__name__
+
+
+def check_ordered(a, b):
+    """Raise unless a and b are ordered in Starlark (recursively, the way a lexicographic comparison meets elements)."""
+    if a is None or b is None:
+        raise TypeError("NoneType is not ordered")
+    if kind_of(a) != kind_of(b):
+        raise TypeError("mixed types")
+    if isinstance(a, (list, tuple)):
+        for x, y in zip(a, b):
+            if not same_value(x, y):
+                check_ordered(x, y)
+                return
+
+
+def same_value(x, y):
+    if kind_of(x) != kind_of(y):
+        return False
+    if isinstance(x, (list, tuple)):
+        return len(x) == len(y) and all(same_value(a, b) for a, b in zip(x, y))
+    return x == y
+
+
+class K:
+    """Sort key wrapper: Starlark's ordering rules on top of Python's comparisons."""
+    __slots__ = ("v",)
+
+    def __init__(self, v):
+        self.v = v
+
+    def __lt__(self, o):
+        check_ordered(self.v, o.v)
+        return self.v < o.v
+
+    def __gt__(self, o):
+        check_ordered(self.v, o.v)
+        return self.v > o.v
+
+
+def k_first(x):
+    if isinstance(x, bool) or isinstance(x, (int, float)) or x is None:
+        raise TypeError("not indexable")
+    if len(x) == 0:
+        raise IndexError("index 0 out of range")
+    return x[0:1] if isinstance(x, (str, bytes)) else x[0]
+
+
+def k_mod3(x):
+    if isinstance(x, bool) or not isinstance(x, int):
+        raise TypeError("int % int only here")
+    return x % 3
+
+
+def k_neg(x):
+    if isinstance(x, bool):
+        raise TypeError("bool is not a number")
+    return -x
+
+
+def k_int(x):
+    if not isinstance(x, (bool, int, float)):
+        raise TypeError("int() of a non-number")
+    return int(x)
+
+
+KEYS = {"": lambda x: x, "ident": lambda x: x, "len": len, "zero": lambda x: 0, "mod3": k_mod3,
+        "neg": k_neg, "first": k_first, "lower": lambda x: x.lower(), "int": k_int}
 
 
 def strict_int(x):
@@ -164,6 +242,26 @@ def evaluate(c):
                 r = f(*strict_elems(args))
         else:
             raise ValueError(name)
+    elif op == "sort":
+        name = c["name"]
+        kf = KEYS[c.get("key", "")]
+        key = lambda v: K(kf(v))
+        if name == "sorted":
+            (a,) = args
+            xs = list(it(a))
+            if len(xs) == 2:
+                check_ordered(kf(xs[0]), kf(xs[1]))
+            r = sorted(xs, key=key, reverse=(c.get("rev") == "true"))
+        else:
+            if c.get("rev"):
+                raise TypeError("min/max take no reverse")
+            f = min if name == "min" else max
+            if len(args) == 0:
+                raise TypeError("no arguments")
+            xs = list(it(args[0])) if len(args) == 1 else args
+            if len(xs) == 1:
+                kf(xs[0])
+            r = f(xs, key=key)
     elif op == "bin":
         x = to_py(c["x"])
         y = args[0]
